@@ -828,7 +828,7 @@ var newmTuples = []*ty{
 
 type sentry struct{ k, v sx.Sexp }
 
-// keys a declaration never names (no arrays: an array key in a key-value array selects the unmodelled tree dispatch)
+// keys a declaration never names
 var newmOddKeys = []sx.Sexp{sv(""), iv(1), sv("z"), sv("A"), bv(true), sx.T("u"), iv(0), sv(" "), sx.T("d")}
 var newmOddVals = []sx.Sexp{iv(1), sv("x"), sx.T("u"), bv(true), av(), iv(7), sv(""), sx.T("h")}
 
@@ -994,6 +994,7 @@ func genNewM(g *core.G) {
 	}
 	genNewMContainers(g, emit)
 	genNewMNum(g, emit)
+	genNewMTree(g, emit)
 	recvs := []sx.Sexp{sx.T("init")}
 	for _, t := range newmRecv {
 		recvs = append(recvs, t.sexp(), sx.T("init", t.sexp()))
